@@ -16,6 +16,17 @@ import numpy as np
 from . import core, findlib as fl
 
 CHIRAL = {"chiral", "asym4", "asym5"}          # patterns whose mirror image is NOT an occurrence
+
+# patterns with two SAME-ELEMENT atoms close together (not the axis pair, not the orientation point), with the
+# tolerances for which the pair is between atol and 2·atol apart: one structure atom near their midpoint is then
+# within atol of BOTH pattern sites — only the pair-distance screen (|d_pattern − 0| ≤ atol fails) keeps one atom from
+# standing in for two. Registered in findlib's table for the C01 check only (this module is imported by c01.py alone).
+CLOSE_PAIR = {"h2frame": [0.4, 0.5, 0.6],      # H–H 0.75
+              "twinF": [0.2, 0.3]}             # F–F 0.375
+fl.PATTERNS.setdefault("h2frame", (["C", "O", "N", "H", "H"],
+                                   [(0, 0, 0), (0, 0, 3.0), (2.0, 0, 0.5), (0.75, 0.375, 1.5), (0.75, -0.375, 1.5)]))
+fl.PATTERNS.setdefault("twinF", (["C", "N", "O", "F", "F"],
+                                 [(0, 0, 0), (0, 0, 2.5), (1.75, 0, 0.5), (0.75, 0.1875, 1.25), (0.75, -0.1875, 1.25)]))
 ATOLS = [0.02, 0.05, 0.1, 0.2]                                   # the grid's tolerances (kept)
 TINY_ATOLS = [1e-4, 2e-4, 5e-4, 2e-3]                           # a caller telling nearly identical fragments apart
 # the random stream: tiny, ordinary (default 0.05 twice) and large tolerances
@@ -116,6 +127,18 @@ def add_decoy(rng, case, kind, atol, stretch=None):
         else:
             return False
         g = _place(rng, case, ppos, els, perturb=atol / 8 / math.sqrt(3))
+    elif kind == "merged" and k >= 3:
+        # the closest pair of SAME-ELEMENT atoms replaced by ONE atom at their midpoint: the structure has one atom where
+        # the pattern has two, so no match with distinct atoms exists there
+        pairs = [(sum(float(ppos[a][c] - ppos[b][c]) ** 2 for c in range(3)), a, b)
+                 for a in range(k) for b in range(a) if els[a] == els[b]]
+        if not pairs:
+            return False
+        _, a, b = min(pairs)
+        mid = [(ppos[a][c] + ppos[b][c]) / 2 for c in range(3)]
+        src = [mid if i == b else list(ppos[i]) for i in range(k) if i != a]
+        els = [els[i] for i in range(k) if i != a]
+        g = _place(rng, case, src, els, perturb=atol / 8 / math.sqrt(3))
     elif kind == "stretch" and k >= 2:
         # a rigid copy in which ONE bond is s·atol too long (atom j pushed away from atom i along the bond), s = 2.5 … 8:
         # outside the requested tolerance by a small factor — any silent widening of the tolerance accepts it
@@ -145,9 +168,18 @@ def random_case(rng):
     atol = rng.choice(ALL_ATOLS)
     boundary = rng.choice([None, None, "face", "corner"])
     pose = rng.choice([None, None, None, "identity", "axis90", "axis180"])
-    case = fl.planted_structure(rng, atol=atol, decoys=True, pose=pose, boundary=boundary)
+    pname = None
+    if rng.random() < 0.12:
+        # a close same-element pair relative to a LARGE tolerance, and a site with one atom where the pattern has two
+        pname = rng.choice(sorted(CLOSE_PAIR))
+        atol = rng.choice(CLOSE_PAIR[pname])
+    case = fl.planted_structure(rng, pname=pname, atol=atol, decoys=True, pose=pose, boundary=boundary,
+                                ncopies=rng.randint(0, 2) if pname else None)
     case["decoys"] = decoy_groups(case)
-    for kind, p in (("wrongelem", 0.5), ("mirror", 0.35), ("permuted", 0.25), ("stretch", 0.6), ("stretch", 0.3)):
+    kinds = [("wrongelem", 0.5), ("mirror", 0.35), ("permuted", 0.25), ("stretch", 0.6), ("stretch", 0.3), ("merged", 0.15)]
+    if pname:
+        kinds = [("merged", 1.0), ("merged", 0.5)] + kinds
+    for kind, p in kinds:
         if rng.random() < p:
             add_decoy(rng, case, kind, atol)
     case["info"]["boundary"] = boundary or "inside"
@@ -192,8 +224,8 @@ def planted_at(rng, pname, cell_kind, pose, frac, atol):
     if g is not None:
         case["planted"].append(sorted(g))
         case["info"]["copies"] = 1
-    for kind in ("mirror", "wrongelem", "stretch"):
-        if rng.random() < 0.5:
+    for kind in ("mirror", "wrongelem", "stretch", "merged"):
+        if rng.random() < (0.9 if (kind == "merged" and pname in CLOSE_PAIR) else 0.5):
             add_decoy(rng, case, kind, atol)
     return case
 
@@ -322,7 +354,7 @@ def random_sequence(rng):
                     break
             c = empty_case(pn, cell, ck)
             plant(rng, c, atol, ncopies=rng.randint(0, 3), boundary=rng.random() < 0.5)
-            add_decoy(rng, c, rng.choice(["stretch", "wrongelem", "mirror", "permuted"]), atol)
+            add_decoy(rng, c, rng.choice(["stretch", "wrongelem", "mirror", "permuted", "merged"]), atol)
             if not c["elems"]:
                 plant(rng, c, atol, ncopies=1)
             calls.append(call_of(c, atol, h, flag(), rng.randrange(1 << 30), sobj=si, pobj=0))
